@@ -1,13 +1,13 @@
 SPECIFICATION Spec
 CONSTANTS
-  N = 3
-  Kinds <- K3
+  N = 1
+  Kinds <- K1e
   Units = 2
   Cap = 1
   DropParentCloseW = FALSE
   FailAt = 0
-  CapReadMode = "concurrent"
-  Capture = FALSE
+  CapReadMode = "sequential"
+  Capture = TRUE
 INVARIANT ExecFds
 INVARIANT ShellFdsRestored
 INVARIANT NoForeignEnds
